@@ -486,14 +486,20 @@ class SqwModel(Model):
                     return to_ndarr(c, to_dtype(v.dtype) if v.dtype in absio.CODES else None) if isinstance(c, list) else to_ndarr(c)
                 if 'elems' in v.members and v.unit in (NO_UNIT, None) or ('elems' in v.members and v.kind == 'raw'):
                     return v.members['elems']
+                if attr == 'values' and '_buffer' in v.members:
+                    return v.members['_buffer']  # .values is a view of the variable's memory: the same buffer every time
                 r = self.raw(interp, v, node, attr)
                 set_shape(r, (3,) if v.dtype == 'vector3' and sh == () else sh)
                 if attr == 'value' and v.dtype != 'vector3':
                     return r
                 if v.members.get('order') is not None and attr == 'values':
                     dt_ = r.dtype if r.dtype in absio.CODES else 'float64'
-                    return NdArr(shape_of(r), dt_, [absio.Elem(r, k) for k in v.members['order']])
-                return NdArr.whole(r, shape_of(r), r.dtype if r.dtype in absio.CODES else 'float64')
+                    buf = NdArr(shape_of(r), dt_, [absio.Elem(r, k) for k in v.members['order']])
+                else:
+                    buf = NdArr.whole(r, shape_of(r), r.dtype if r.dtype in absio.CODES else 'float64')
+                if attr == 'values':
+                    v.members['_buffer'] = buf
+                return buf
         if v.kind == 'raw' and attr in ('astype', 'squeeze', 'item', 'tobytes', 'tofile', 'reshape', 'copy', 'tolist') and sh is not None:
             return getattr(NdArr.whole(v, sh), attr)
         r = super().var_attr(interp, v, attr, node)
